@@ -755,7 +755,12 @@ class Fxp():
 
             # force return raw value for better precision
             # (rounded exactly by the configured rule; int() dropped the fraction toward zero whatever the rule)
-            val = self._round(Fraction(val) * Fraction(2)**self.n_frac, method=self.config.rounding)
+            _exact = Fraction(val) * Fraction(2)**self.n_frac
+            val = self._round(_exact, method=self.config.rounding)
+            if set_inaccuracy and val != _exact:
+                # (the rounded code is handed over as a raw value: the loss is noted here, the store compares codes with codes)
+                self.status['inaccuracy'] = True
+                self._run_callbacks('on_status_inaccuracy')
             raw = True
             vdtype = int              # (the code is an integer on its way to the store: a cast to float would round it to 53 bits)
 
@@ -915,7 +920,8 @@ class Fxp():
                 val_dtype = np.int64 if self.signed else np.uint64
 
             # integers of more than 53 bits that lose bits (negative n_frac) are divided exactly: the float factor would round them first
-            if isinstance(conv_factor, float) and np.size(val) > 0 and (np.asarray(val).dtype == object or \
+            if isinstance(conv_factor, float) and np.size(val) > 0 and ((np.asarray(val).dtype == object and \
+                all(isinstance(v, (int, float, np.integer, Fraction)) for v in np.asarray(val).flatten())) or \
                 (np.asarray(val).dtype.kind in 'iu' and (int(np.max(val)) >= 2**53 or int(np.min(val)) <= -2**53))):
                 val = np.asarray(val).astype(object)        # (np.asarray: a scaled object hands over a NumPy or python scalar)
                 conv_factor = Fraction(1, 1 << -self.n_frac)
